@@ -27,6 +27,9 @@ pub struct Family {
     pub gen: GenFn,
     pub oracles: OracleFn,
     pub adversary: Option<AdversaryFn>,
+    /// The recorded adversary actions are only legal relative to this exact workload (packet
+    /// numbering, timing): the minimiser must not remove application operations.
+    pub keep_workload: bool,
     /// one-line description for the evidence file
     pub what: &'static str,
 }
